@@ -1777,6 +1777,42 @@ theorem login_needs_password (rs : List Bytes) (h : R C pws s t) (id pw : Bytes)
     simp only [hv, hh, h1, hval, recOf_succ, h3, hchk]
     simp [hgc]
 
+/-! ### read-only requests -/
+
+/-- password checks and lookups: the requests that only read. -/
+def Pure : Op → Prop
+  | .checkPasswd .. => True
+  | .exists_ _ => True
+  | .getUser _ => True
+  | _ => False
+
+theorem pure_state (rs : List Bytes) (s : State C) (o : Op) (h : Pure o) : (step rs s o).1 = s := by
+  cases o with
+  | checkPasswd id pw =>
+    simp only [step]; unfold checkPasswd; simp only []; repeat' split
+    all_goals rfl
+  | exists_ id =>
+    simp only [step]; unfold checkExists; simp only []; repeat' split
+    all_goals rfl
+  | getUser id =>
+    simp only [step]; unfold getUser; simp only []; repeat' split
+    all_goals rfl
+  | register id pw email salt rest => cases h
+  | login id pw rest => cases h
+  | changePasswd id old new salt => cases h
+  | changeEmail id email => cases h
+
+theorem pure_run (rs : List Bytes) (s : State C) (ops : List Op) (h : ∀ o ∈ ops, Pure o) :
+    run rs s ops = s ∧ outputs rs s ops = ops.map (fun o => (step rs s o).2) := by
+  induction ops with
+  | nil => exact ⟨rfl, rfl⟩
+  | cons o os ih =>
+    have h1 := pure_state rs s o (h o (by simp))
+    have ih' := ih (fun o' ho' => h o' (by simp [ho']))
+    unfold run outputs
+    rw [h1]
+    exact ⟨ih'.1, by rw [ih'.2]; rfl⟩
+
 /-! ### a start state, the ideal hash -/
 
 def emptyRec (C : Crypto) : Rec C := { id := List.replicate IDSZ 0, hash := C.zero, email := List.replicate EMAILSZ 0, rest := 0 }
